@@ -6,6 +6,8 @@ interp/nearest/*      _NearestInterpolator and the per-axis interpolator with 'n
                       right neighbour on ties, ndim 1 and 2
 interp/linear/*       per-axis interpolator with 'linear' / mixed: multilinear blend sum_corners prod_ax w_ax f(corner)
                       with w = (1 - t, t); node values reproduced; affine functions reproduced exactly (ndim 1, 2)
+sampling/*            BOUNDED (never counted as proved): space.element(f) / point_collocation(out=) against the callable evaluated point by point for every
+                      kind of callable x floating dtype x two-use history of the same callable object (contracts/replay_c15.py)
 The evaluation points are arbitrarily many (pointwise model over the point index); values are an uninterpreted
 function of the index tuple.
 """
@@ -28,7 +30,7 @@ META = {
         'z3 (mixed integer / real arithmetic, nonlinear for the blends); A1 reals',
     ],
     'assumptions': ['A1', 'A5', 'A7', 'coordinate vectors strictly increasing with at least 2 nodes per axis', 'evaluation points inside the hull of the grid'],
-    'not_decided': ['sampling_function / _make_dual_use_func / vectorize (inspect signatures, partial, try/except around user callables): not under contract',
+    'not_decided': ['sampling_function / _make_dual_use_func / vectorize (inspect signatures, partial, try/except around user callables): no deductive contract, only the bounded sampling/* units',
                     'meshgrid input type (broadcast bookkeeping), ndim >= 3, behaviour outside the hull',
                     'point_collocation / DiscretizedSpace.element delegation'],
 }
@@ -221,6 +223,32 @@ def unit_canary():
     return Unit('canary/nearest-left-on-ties', run, kind='canary', expect='refuted')
 
 
+def unit_sampling_bounded(kind, ndim, tier):
+    """BOUNDED stand-in (labelled bounded, never counted as proved) - see contracts/replay_c15.py: space.element(f) / point_collocation(..., out=) against the
+    callable evaluated point by point, for each kind of callable, each floating dtype, and every two-use history of the same callable object."""
+    def run(ctx):
+        from contracts import replay_c15
+        for cfg in replay_c15.cases(tier):
+            if cfg['kind'] != kind or cfg['ndim'] != ndim:
+                continue
+            try:
+                bad, evals = replay_c15.check(cfg)
+            except Exception as e:
+                bad, evals = 'evaluation raised %s: %s' % (type(e).__name__, e), 0
+            ctx.evals += max(evals - 1, 0)
+            ctx.bounded('element from a callable holds exactly the callable values at the grid points (each use of the same callable object)', not bad, cfg, detail=bad)
+    return Unit('sampling/%s/ndim=%d' % (kind, ndim), run, funcs=[DU + 'sampling_function', DU + 'point_collocation', DU + '_make_dual_use_func',
+                'odl.util.vectorization:_NumpyVectorizeWrapper.__call__', 'odl.discr.discr_space:DiscretizedSpace.element'], kind='B',
+                config={'kind': kind, 'ndim': ndim}, bounded_in='grids 4 and 4 x 3, dtypes float32/64 complex64/128, histories of at most two uses of one callable')
+
+
+def replay(ob):
+    if ob.get('unit', '').startswith('sampling/'):
+        from contracts import replay_c15
+        return replay_c15.replay(ob)
+    return {'reproduced': False, 'detail': 'no native concretisation for this obligation kind'}
+
+
 def units(tier, seed):
     us = [unit_find_indices('float64'), unit_find_indices('float32'), unit_find_indices('complex64')]
     us.append(unit_interp(1, 'nearest-class'))
@@ -231,5 +259,9 @@ def units(tier, seed):
         us.append(unit_interp(2, kinds))
     us.append(unit_affine(1))
     us.append(unit_affine(2))
+    from contracts import replay_c15
+    for kind in replay_c15.KINDS:
+        for ndim in (1, 2):
+            us.append(unit_sampling_bounded(kind, ndim, tier))
     us.append(unit_canary())
     return us
